@@ -13,7 +13,7 @@ open Aergo.Json
 
 open Site in
 def admissionSites : List Site := [tNameUpdTo, tNameOwner0, tNameCommon0, sParseId0, sCandSlice, nVal0, eAdmin0,
-  eEnable0, eEnable1, eCtx0, eCtxTail, eCtx1, eCheckArgs0, eRpcVals0, eCc0, cRpcSplit, gAdmins, fCalcGas, pFdRsp]
+  eEnable0, eEnable1, eCtx0, eCtxTail, eCtx1, eCheckArgs0, eRpcVals0, eCc0, cRpcSplit, gAdmins, cDeser0, fCalcGas, pFdRsp]
 
 theorem reach_fixGuard {L : List Site} (u : List Site) (s : Site) (c : Bool) (r : Rej) : Safe L (fixGuard u s c r) := by
   unfold fixGuard; split <;> first | exact safe_reject _ | exact safe_ok _
@@ -112,6 +112,10 @@ macro_rules | `(tactic| reach_lemma) => `(tactic| exact reach_nameState _ _)
 theorem reach_nameValidate (e : Env) : Safe admissionSites (nameValidate e) := by
   unfold nameValidate; reach
 macro_rules | `(tactic| reach_lemma) => `(tactic| exact reach_nameValidate _)
+
+theorem reach_confRead (b : Bool) : Safe admissionSites (confRead b) := by
+  unfold confRead; reach
+macro_rules | `(tactic| reach_lemma) => `(tactic| exact reach_confRead _)
 
 theorem reach_checkAdmin (e : Env) (b : Bool) : Safe admissionSites (checkAdmin e b) := by
   unfold checkAdmin; reach
